@@ -56,7 +56,19 @@ func runC36(c *Ctx) {
 		}
 	}
 	nVars := 0
-	for _, pk := range []string{"sop", "common", "cache", "fs"} {
+	pkScope := []string{"sop", "common", "cache", "fs"}
+	if c.Tier == "thorough" {
+		// the wider sweep: every analysed package
+		pkScope = nil
+		for k, p := range w.ByPath {
+			if p.Types.Name() == "main" {
+				continue // an application (tools/httpserver), not the library the property speaks about
+			}
+			pkScope = append(pkScope, k)
+		}
+		sort.Strings(pkScope)
+	}
+	for _, pk := range pkScope {
 		scope := w.Pkg(pk).Types.Scope()
 		names := scope.Names()
 		sort.Strings(names)
@@ -98,7 +110,7 @@ func runC36(c *Ctx) {
 				if r.Decl != nil {
 					nm = r.Decl.Name.Name
 				}
-				if !(r.Obj != nil && r.Obj.Exported() && (strings.HasPrefix(nm, "Set") || strings.HasPrefix(nm, "Register") || strings.HasPrefix(nm, "Configure") || strings.HasPrefix(nm, "Use") || strings.HasPrefix(nm, "Init") || strings.HasPrefix(nm, "Reset") || strings.HasPrefix(nm, "Close"))) {
+				if !(r.Obj != nil && r.Obj.Exported() && (strings.HasPrefix(nm, "Set") || strings.HasPrefix(nm, "Register") || strings.HasPrefix(nm, "Configure") || strings.HasPrefix(nm, "Use") || strings.HasPrefix(nm, "Init") || strings.HasPrefix(nm, "Reset") || strings.HasPrefix(nm, "Close") || strings.HasPrefix(nm, "Open"))) {
 					setterOnly = false
 				}
 			}
@@ -336,7 +348,31 @@ func implsOf(w *World, cs *CallSite) []*Func {
 func siblingRule(c *Ctx, li *lockInfo, r2 string) {
 	w := c.W
 	nGroups := 0
-	for _, spec := range []string{kTxp2, "fs.BlobStoreWithEC.GetOne", "fs.BlobStoreWithEC.Add", "fs.BlobStoreWithEC.Remove"} {
+	specs := []string{kTxp2, "fs.BlobStoreWithEC.GetOne", "fs.BlobStoreWithEC.Add", "fs.BlobStoreWithEC.Remove"}
+	if c.Tier == "thorough" {
+		// the wider sweep: every library function that hands closures to a task runner's Go
+		have := map[string]bool{}
+		for _, k := range specs {
+			have[k] = true
+		}
+		for _, f := range w.allDeclared() {
+			if f.Pkg.Types.Name() == "main" || isTestHelperFile(w, f) || have[f.Key] {
+				continue
+			}
+			for _, fn := range append([]*Func{f}, w.allLits(f)...) {
+				for _, cs := range w.Sites(fn) {
+					if strings.HasSuffix(cs.Key, ".Go") && len(cs.Call.Args) == 1 && !have[f.Key] {
+						if _, ok := ast.Unparen(cs.Call.Args[0]).(*ast.FuncLit); ok {
+							have[f.Key] = true
+							specs = append(specs, f.Key)
+						}
+					}
+				}
+			}
+		}
+		sort.Strings(specs)
+	}
+	for _, spec := range specs {
 		f := w.FnOpt(spec)
 		if f == nil {
 			continue
